@@ -4,12 +4,21 @@ package main
 
 import "verif/mon"
 
+// replayable wraps a check whose cases are a pure function of (seed, tier): a
+// witness is replayed by regenerating the run that produced it.
+func replayable(f func(*mon.Run)) func(*mon.Run) {
+	return func(r *mon.Run) {
+		r.AdoptReplaySeed()
+		f(r)
+	}
+}
+
 func main() {
 	mon.Main(map[string]func(*mon.Run){
-		"C02": checkC02,
-		"C03": checkC03,
-		"C04": checkC04,
-		"C10": checkC10,
-		"C22": checkC22,
+		"C02": replayable(checkC02),
+		"C03": replayable(checkC03),
+		"C04": replayable(checkC04),
+		"C10": replayable(checkC10),
+		"C22": replayable(checkC22),
 	})
 }
